@@ -1074,6 +1074,7 @@ int __wrap_accept4(int fd, struct sockaddr* addr, socklen_t* alen, int flags)
     Stream* sp = s.get();
     int nfd = install(std::move(s));
     sp->stats_idx = new_stream_stats(nfd);
+    k.sstats[static_cast<size_t>(sp->stats_idx)].conn_id = c->id;
     c->e[1].file = sp;
     fill_addr(addr, alen, c->client_port);
     sim::rec().stats["accepted"]++;
@@ -1102,6 +1103,7 @@ int __wrap_connect(int fd, const struct sockaddr* addr, socklen_t len)
     s->side = 0;
     s->connecting = true;
     s->stats_idx = new_stream_stats(fd);
+    k.sstats[static_cast<size_t>(s->stats_idx)].conn_id = c->id;
     c->e[0].file = s;
     i64 lat = c->d[0].np.latency_ns;
     std::weak_ptr<Conn> wc = c;
@@ -1220,6 +1222,7 @@ ssize_t __wrap_send(int fd, const void* buf, size_t len, int flags)
         return stream_send(s, static_cast<const char*>(buf), len);
     }
     if (r >= 0) sim::trace(sim::mix(0x5e4d, static_cast<u64>(r)));
+    if (sim::verbose()) sim::logf("send(fd %d, %zu) = %zd%s by %s: %.40s", fd, len, r, r < 0 ? strerror(errno) : "", sim::self_name(), r > 0 ? std::string(static_cast<const char*>(buf), std::min<size_t>(static_cast<size_t>(r), 40)).c_str() : "");
     return r;
 }
 
@@ -1288,6 +1291,7 @@ ssize_t __wrap_recv(int fd, void* buf, size_t len, int flags)
             sim::trace(sim::hash_bytes(tmp.data(), static_cast<size_t>(r), 0x4ec5));
         }
     }
+    if (sim::verbose()) sim::logf("recv(fd %d, %zu) = %ld by %s: %.40s", fd, len, r, sim::self_name(), r > 0 ? tmp.substr(0, 40).c_str() : "");
     if (r < 0) return fail(static_cast<int>(-r));
     if (r > 0) memcpy(buf, tmp.data(), static_cast<size_t>(r));
     return r;
